@@ -106,6 +106,15 @@ class StochasticAtomGraph:
                             bd_lhs_idx = _find_bd_token(element_lhs, bd_lhs)
                             bd_rhs_idx = _find_bd_token(element_rhs, bd_rhs)
 
+                            # Exclude exits out of a terminal (end) group
+                            # End token IDs are *after* the repeat token IDs
+                            try:
+                                if bd_lhs_idx >= len(element_lhs.repeat_tokens):
+                                    continue
+                            except AttributeError as exc:
+                                if not isinstance(element_lhs, SmilesToken):
+                                    raise RuntimeError("Expected a SmilesToken") from exc
+
                             # Exclude direct exit into terminal group
                             exclude_transition_into_terminal = True
                             try:
